@@ -14,6 +14,7 @@ import RosedVerif.Model.BridgeEditorOps
 import RosedVerif.Model.BridgeEditorParas
 import RosedVerif.Model.NoLossModel
 import RosedVerif.Model.NoLossOps
+import RosedVerif.Model.Placeholder
 namespace RosedVerif.Props
 open RosedVerif RosedVerif.Spec
 variable {α : Type} (tk : Toks α)
@@ -379,6 +380,70 @@ theorem C07_collapseSpaceOpts_idempotent_needs_sep :
       fun e => Editor.collapseSpaceOpts cxA e { lineSep := [0x61, 0x20, 0x62] }).map Editor.text =
         .ok [0x20] :=
   collapseSpaceOpts_idem_needs_sep
+
+/-! ### the stand-in of paragraph-mode Wrap (repair of defect D18)
+
+`WrapOpts` with PreserveParagraphs pads each paragraph with runs of a stand-in letter in place of
+the parts of the paragraph separator that share a line with it, wraps, and removes the runs again BY
+COUNT.  Wrap turns every occurrence of the line separator into a space first, so a stand-in that
+occurs in the line separator is eaten and the removal by count deletes real text instead
+(D18: `Edit("x\n\ny").WrapOpts(20, {PreserveParagraphs, LineSeparator: "A"})` gave `"\n\ny"`).
+Since the repair the stand-in is `cxA.placeholder sep`: the first of `A`, `B`, `C`, … that is not
+a rune of the line separator.
+
+Limit of the repair (recorded, not proved away): the candidates are consecutive code points, so a
+line separator that contains every rune U+0041..U+0084 gets the stand-in U+0085, which is white
+space (collapsed by Wrap), and one that contains every rune U+0041..U+02FF gets U+0300, class
+Extend (a run of them is ONE cluster, so the count is off).  No separator of fewer than 68 runes
+is affected. -/
+
+/-- for EVERY line separator the stand-in does not occur in it (so no stand-in is turned into a
+space as part of a line separator) -/
+theorem C07_wrapOpts_para_placeholder_fresh (sep : List Int) : cxA.placeholder sep ∉ sep :=
+  phFresh_cxA sep
+
+/-- it is the first such letter: `A + k` with `k ≤ |sep|`, and every letter before it is a rune of
+the separator -/
+theorem C07_wrapOpts_para_placeholder_first (sep : List Int) :
+    ∃ k : Nat, k ≤ sep.length ∧ cxA.placeholder sep = 0x41 + (k : Int) ∧
+      ∀ j : Nat, j < k → (0x41 + (j : Int)) ∈ sep :=
+  placeholder_cxA_first sep
+
+/-- a line separator without the letter `A` is padded with `A`, as before the repair -/
+theorem C07_wrapOpts_para_placeholder_default (sep : List Int) (h : (0x41 : Int) ∉ sep) :
+    cxA.placeholder sep = 0x41 :=
+  Ctx.placeholder_eq_phA cxA h
+
+/-- the witnesses of D18 keep their text: `"x\n\ny"` with the line separator `"A"` (the whole
+paragraph separator `"\n\n"` shares a line with the first paragraph, which is padded with two
+stand-ins `B`), `"bx\n\ny"` with the line separator `"xA"` (stand-in `B`), `"x\n\nyz"` with the
+line separator `"AB"` (stand-in `C`) -/
+theorem C07_wrapOpts_para_D18_witness :
+    (Editor.wrapOpts cxA (.root [0x78, 0x0A, 0x0A, 0x79] {}) 20
+        { preservePara := true, lineSep := [0x41] }).map Editor.text =
+      .ok [0x78, 0x0A, 0x0A, 0x79] ∧
+    (Editor.wrapOpts cxA (.root [0x62, 0x78, 0x0A, 0x0A, 0x79] {}) 20
+        { preservePara := true, lineSep := [0x78, 0x41] }).map Editor.text =
+      .ok [0x62, 0x78, 0x0A, 0x0A, 0x79] ∧
+    (Editor.wrapOpts cxA (.root [0x78, 0x0A, 0x0A, 0x79, 0x7A] {}) 20
+        { preservePara := true, lineSep := [0x41, 0x42] }).map Editor.text =
+      .ok [0x78, 0x0A, 0x0A, 0x79, 0x7A] ∧
+    cxA.placeholder [0x41] = 0x42 ∧ cxA.placeholder [0x78, 0x41] = 0x42 ∧
+    cxA.placeholder [0x41, 0x42] = 0x43 ∧ cxA.placeholder [0x42, 0x41] = 0x43 ∧
+    cxA.placeholder [0x0A] = 0x41 :=
+  ⟨BridgeWrap.of_okEq (by decide +kernel), BridgeWrap.of_okEq (by decide +kernel),
+    BridgeWrap.of_okEq (by decide +kernel), by decide, by decide, by decide, by decide, by decide⟩
+
+/-- the limit of the repair, as a checked fact (FINDING, residual of D18): for the 68-rune line
+separator U+0041 … U+0084 the stand-in is U+0085 (NEL), which is white space; Wrap collapses the
+stand-ins and the removal by count deletes the paragraph `"x"` as before the repair -/
+theorem C07_wrapOpts_para_placeholder_limit :
+    cxA.placeholder ((List.range 68).map fun (i : Nat) => (0x41 + (i : Int))) = 0x85 ∧
+    cxA.isSpace 0x85 = true ∧
+    (Editor.wrapOpts cxA (.root [0x78, 0x0A, 0x0A, 0x79] {}) 20
+        { preservePara := true, lineSep := (List.range 68).map fun (i : Nat) => (0x41 + (i : Int)) }).map
+      Editor.text = .ok [0x0A, 0x0A, 0x79] :=
+  ⟨by decide +kernel, by decide +kernel, BridgeWrap.of_okEq (by decide +kernel)⟩
 
 end C07_public
 
